@@ -59,3 +59,27 @@ M("hoo-newlayer-inverted", "PyXAB/algos/HOO.py",
 M("randbinary-depth-not-bumped", "PyXAB/partition/RandomBinaryPartition.py",
   "            self.node_list.append(new_deepest)\n            self.depth += 1",
   "            self.node_list.append(new_deepest)\n            self.depth = len(self.node_list) - 1 if len(self.node_list) < 6 else self.depth", ["C03"])
+
+# ---- objectives (C17)
+M("garland-4.1", "PyXAB/synthetic_obj/Garland.py", "return x * (1 - x) * (4 - np.sqrt(np.abs(np.sin(60 * x))))",
+  "return x * (1 - x) * (4.02 - np.sqrt(np.abs(np.sin(60 * x))))", ["C17"])
+M("himmelblau-sign", "PyXAB/synthetic_obj/Himmelblau.py", "return -((x1 ** 2 + x2 - 11) ** 2) - (x1 + x2 ** 2 - 7) ** 2",
+  "return -((x1 ** 2 + x2 - 11) ** 2) + (x1 + x2 ** 2 - 7) ** 2", ["C17"])
+M("ackley-const", "PyXAB/synthetic_obj/Ackley.py", "            - np.e\n            - 20\n        )\n\n\nclass Ackley_Normalized",
+  "            - np.e\n            - 19.9999999\n        )\n\n\nclass Ackley_Normalized", ["C17"])
+M("doublesine-last-term", "PyXAB/synthetic_obj/DoubleSine.py",
+  "return mysin2(math.log(u, 2) / 2.0) * envelope_width - math.pow(u, self.ep2)",
+  "return mysin2(math.log(u, 2) / 2.0) * envelope_width - math.pow(u, self.ep1)", ["C17"])
+M("difficult-plus", "PyXAB/synthetic_obj/DifficultFunc.py", "(np.sqrt(y) - y ** 2)", "(np.sqrt(y) + y ** 2)", ["C17"])
+M("rastrigin-const", "PyXAB/synthetic_obj/Rastrigin.py", "S = S - 10 - (x[i] ** 2 - 10 * np.cos(2 * np.pi * x[i]))",
+  "S = S - 9.999 - (x[i] ** 2 - 10 * np.cos(2 * np.pi * x[i]))", ["C17"])
+M("cexample-sign", "PyXAB/synthetic_obj/Cexample.py", "return 1 + 1 / np.log(x)", "return 1 - 1 / np.log(x) if x > 0.3 else 1 + 1 / np.log(x)", ["C17"])
+M("perturbed-garland-fmax", "PyXAB/synthetic_obj/Garland.py", "self.fmax = 1 + self.perturb", "self.fmax = 1 + min(self.perturb, 2.0)", ["C17"])
+M("perturbed-doublesine-impure", "PyXAB/synthetic_obj/DoubleSine.py",
+  "                - math.pow(u, self.ep2)\n                + self.perturb",
+  "                - math.pow(u, self.ep2)\n                + self.perturb - abs(np.random.normal(0, 1e-9))", ["C17"])
+M("ackley-dim-check", "PyXAB/synthetic_obj/Ackley.py", "if len(x) != 2:\n            raise ValueError(\"The dimension of the point should be 2 in Ackley\")\n        x1 = x[0]\n        x2 = x[1]\n        return",
+  "if len(x) < 2:\n            raise ValueError(\"The dimension of the point should be 2 in Ackley\")\n        x1 = x[0]\n        x2 = x[1]\n        return", ["C17"])
+M("himmelblau-fmax-1", "PyXAB/synthetic_obj/Himmelblau.py", "self.fmax = 0", "self.fmax = 1e-6", ["C17"])
+M("difficult-nan-at-edge", "PyXAB/synthetic_obj/DifficultFunc.py", "        if y == 0:\n            return 0",
+  "        if y == 0:\n            return 0\n        elif y < 1e-15:\n            return float('nan')", ["C17"])
